@@ -360,3 +360,56 @@ impl Family for Funds {
         }
     }
 }
+
+/// Control-flow family with reply handlers whose failure depends on the result they are given:
+/// failing variants are {always, iff the reply carries Ok, iff the reply carries Err}.
+pub struct Cond {
+    pub g: Grammar,
+    pub lo: usize,
+    pub hi: usize,
+}
+
+impl Cond {
+    pub fn new(lo: usize, hi: usize) -> Cond {
+        Cond { g: Grammar::new(1, 3, 2, 2, hi), lo, hi }
+    }
+}
+
+impl Family for Cond {
+    fn name(&self) -> String {
+        format!("conditional-reply[{}..{}]", self.lo, self.hi)
+    }
+    fn grammar(&self) -> &Grammar {
+        &self.g
+    }
+    fn sizes(&self) -> (usize, usize) {
+        (self.lo, self.hi)
+    }
+    fn entries(&self) -> u64 {
+        1
+    }
+    fn entry(&self, _e: u64, ad: &Addrs) -> Entry {
+        entry_of("execute", ad)
+    }
+    fn node(&self, variant: u64, idx: usize, nd: &mut Node) {
+        standard_node(idx, nd);
+        match variant {
+            1 => nd.fail = true,
+            2 => nd.fail_when = 1,
+            3 => nd.fail_when = 2,
+            _ => {}
+        }
+    }
+    fn leaf(&self, l: u64, ad: &Addrs) -> Msg {
+        match l {
+            0 => Msg::BankSend { to: Target::Addr(ad.poor.clone()), coins: vec![("x".into(), 1)] },
+            _ => Msg::BankSend { to: Target::Addr(ad.poor.clone()), coins: vec![("x".into(), 100)] },
+        }
+    }
+    fn call(&self, c: u64, child: usize, _ad: &Addrs) -> Msg {
+        match c {
+            0 => Msg::Call { target: Target::SelfC, funds: vec![("x".into(), 1)], node: child },
+            _ => Msg::Call { target: Target::Other, funds: vec![], node: child },
+        }
+    }
+}
